@@ -321,8 +321,34 @@ func c02Run(t *testing.T, c *evid.Collector) {
 	c.Set("exhaustive_scope", fmt.Sprintf("all programs of length 1..%d over a %d-op alphabet (2 buckets x 2 keys), each started from the state {bk0: a}, on %v: complete (split over shards)", L, len(al), exKinds))
 	c.Exhaustive(false)
 
-	// ---- random programs
+	// ---- fixed histories that mix the two drivers (ignore the seed): copies made through the Go
+	// API, onto destinations that already hold metadata, leave their sources as they were
 	kinds := kindsFromEnv(backends.All)
+	if shard == 0 {
+		sent := [][2]string{{"X-Amz-Meta-Tag", "copy1"}, {"X-Amz-Meta-Only-On-Copy", "c"}}
+		hs := [][]prog.Op{
+			{{K: "put", B: "bk0", Key: "a", Body: []byte("source"), Meta: [][2]string{{"X-Amz-Meta-Tag", "v1"}}}, {K: "put", B: "bk0", Key: "b", Body: []byte("destination")},
+				{K: "copy", B: "bk0", Key: "b", SB: "bk0", SKey: "a", Meta: sent}, {K: "copy", B: "bk0", Key: "b", SB: "bk0", SKey: "a", Via: "api"}, {K: "get", B: "bk0", Key: "a"},
+				{K: "copy", B: "bk0", Key: "f.txt", SB: "bk0", SKey: "a", Via: "api"}, {K: "copy", B: "bk0", Key: "a", SB: "bk0", SKey: "a", Via: "api"}, {K: "put", B: "bk0", Key: "a", Body: []byte("again")}},
+			{{K: "put", B: "bk0", Key: "d/x", Body: []byte("dx")}, {K: "put", B: "bk0", Key: "d/y", Body: []byte("dy"), Meta: [][2]string{{"X-Amz-Meta-Tag", "y"}}},
+				{K: "copy", B: "bk0", Key: "d/y", SB: "bk0", SKey: "d/y", Meta: sent}, {K: "copy", B: "bk0", Key: "d/y", SB: "bk0", SKey: "d/x", Via: "api"}, {K: "copy", B: "bk0", Key: "b", SB: "bk0", SKey: "d/x", Via: "api"},
+				{K: "del", B: "bk0", Key: "d/x"}, {K: "copy", B: "bk0", Key: "d/x", SB: "bk0", SKey: "b", Via: "api"}},
+		}
+		for _, k := range kinds {
+			for _, h := range hs {
+				cs := progCase{Backend: k, Driver: "mixed", Ops: h}
+				if !k.IsSingle() {
+					cs.Ops = append([]prog.Op{{K: "mkbucket", B: "bk0"}}, h...)
+				}
+				ds, labels := c02Exec(cs, c02Universe, c02Classify(k))
+				c.Case(evid.FP(mustJSON(cs)), true, func() interface{} { return cs }, "src:fixed-mixed-driver", "backend:"+string(k))
+				_ = labels
+				report(c, "program", ds, cs)
+			}
+		}
+	}
+
+	// ---- random programs
 	rapidRun(t, "random", evid.Scale(1800, 30000), func(rt *rapid.T) {
 		k := rapid.SampledFrom(kinds).Draw(rt, "backend")
 		auto := rapid.IntRange(0, 3).Draw(rt, "auto") == 0 // also on the single-bucket backends (their bucket exists; no other can be created)
